@@ -192,6 +192,18 @@ func ClassifyCrash(stderr string) (class, sig string) {
 		return "fatal-error", "fatal: " + firstLine(stderr[i:])
 	case strings.Contains(stderr, "panic:"):
 		i := strings.Index(stderr, "panic:")
+		// whose panic? the first frame below the runtime's own: harness code (a bug of the machinery: never a
+		// verdict) or the code under test / a dependency
+		for _, ln := range strings.Split(stderr[i:], "\n")[1:] {
+			ln = strings.TrimSpace(ln)
+			if ln == "" || strings.HasPrefix(ln, "goroutine ") || strings.HasPrefix(ln, "panic(") || strings.HasPrefix(ln, "runtime.") || strings.HasPrefix(ln, "/") || strings.HasPrefix(ln, "[") {
+				continue
+			}
+			if strings.HasPrefix(ln, "verif/sim/") || strings.HasPrefix(ln, "main.") {
+				return "harness-panic", "harness panic: " + firstLine(stderr[i:]) + " in " + firstLine(ln)
+			}
+			break
+		}
 		return "uncaught-panic", firstLine(stderr[i:])
 	}
 	return "worker-died", "worker died: " + firstLine(stderr)
